@@ -613,3 +613,66 @@ def uuid_parse_exact(chk: Check, rule: str, codec_side: bool = False) -> int:
                    "%s builds an identifier with %s: only the stored 16 bytes may determine it (extra "
                    "arguments: %s)" % (f.qualname, unparse(c)[:60], ", ".join(str(e) for e in extra)), 1)
     return n
+
+
+def rejections_mirror_api(chk: Check, rule: str, modules: Optional[Set[str]] = None) -> int:
+    """What the API lets a client build can be saved, and what was saved loads: a decoder that
+    turns a message away because of an *ordering* between numeric fields (an offset beyond some
+    length, a size below some count) rejects states the API accepts unless the constructor or a
+    setter of the package rejects the same relation.  Returns the number of raise sites seen."""
+    from .c01 import _is_reader
+    ORD = (ast.Lt, ast.LtE, ast.Gt, ast.GtE)
+
+    def guarded_raises(f: FuncInfo) -> List[Tuple[ast.Raise, List[ast.Compare]]]:
+        parents: Dict[int, ast.AST] = {}
+        for n in ast.walk(f.node):
+            for ch in ast.iter_child_nodes(n):
+                parents[id(ch)] = n
+        out = []
+        for r in walk_no_nested(f.node):
+            if not isinstance(r, ast.Raise):
+                continue
+            cmps: List[ast.Compare] = []
+            cur: ast.AST = r
+            while id(cur) in parents and cur is not f.node:
+                par = parents[id(cur)]
+                if isinstance(par, (ast.If, ast.While)):
+                    cmps += [x for x in ast.walk(par.test) if isinstance(x, ast.Compare)
+                             and any(isinstance(o, ORD) for o in x.ops)]
+                elif isinstance(par, ast.Assert):
+                    pass
+                cur = par
+            out.append((r, cmps))
+        return out
+
+    def words(c: ast.Compare) -> Set[str]:
+        w = {x.attr.lstrip("_") for x in ast.walk(c) if isinstance(x, ast.Attribute)} | {
+            x.id.lstrip("_") for x in ast.walk(c) if isinstance(x, ast.Name)}
+        # the stored bytes under their three names
+        if w & {"contents", "initialized_size"}:
+            w |= {"contents", "initialized_size"}
+        return w - {"len", "self", "result", "int", "max", "min"}
+    api: List[Set[str]] = []
+    for f in chk.repo.all_functions():
+        if _is_reader(f):
+            continue
+        if f.name == "__init__" or "setter" in " ".join(unparse(d) for d in f.node.decorator_list):
+            for _r, cmps in guarded_raises(f):
+                for c in cmps:
+                    api.append(words(c))
+    n = 0
+    for f in chk.repo.all_functions():
+        if not _is_reader(f):
+            continue
+        if modules is not None and f.module.name.rsplit(".", 1)[-1] not in modules:
+            continue
+        for r, cmps in guarded_raises(f):
+            n += 1
+            for c in cmps:
+                w = words(c)
+                mirrored = [a for a in api if len(a & w) >= 2]
+                chk.ob(rule, "%s:rejects(%s)" % (f.qualname, unparse(c)[:40]), False, f.loc(r),
+                       "%s turns a message away when %s: no constructor or setter of the package rejects that "
+                       "relation, so an object the API accepts (and saves) cannot be loaded back"
+                       % (f.qualname, unparse(c)[:60]), 2, undecided=bool(mirrored))
+    return n
